@@ -24,7 +24,7 @@ def make(rng, sid):
     shape = rng.choice(["project", "readdirs", "noproject", "parsingdirs", "configdirs", "setconfdirs"])
     p = gen_tree.shape_params(rng, shape)
     tg = gen_tree.Tagger()
-    t = gen_tree.random_tree(rng, p["dirs"], p["name"], p["dsfx"], p["postfixes"], tg,
+    t = gen_tree.random_tree(rng, p["dirs"], p["name"], p["dsfx"], p["postfixes"], tg, decoys=p["decoys"],
                              names=[b"a.conf", b"b.conf", b"10-a.conf", b"Z.conf", b"nosuffix"])
     # assign owner/group/link-ness
     attrs = {}
